@@ -194,3 +194,13 @@ def ob_float_range(r, tier, seed):
 _c10_obl = obligations
 def obligations():
     return _c10_obl() + [Ob('O10.5b-float-literal-range', 'float literal accepted iff finite and within the range of its type (through parse_float_literal_with_ty)', ob_float_range, ('quick', 'thorough'), 2, {})]
+
+# ----------------------------------------------------------------------------- O10.7 "division by zero fails at run time": no integer division is judged removable
+def ob_division_kept(r, tier, seed, depth):
+    """same exploration as C09 O9.1 (the DCE effect predicate on lazily built goast::Expr); only the division findings count here"""
+    from props import c09
+    c09.ob_effect_predicate(r, tier, seed, depth)
+    r.findings = [f for f in r.findings if f.key == 'div-judged-pure']
+_c10_obl2 = obligations
+def obligations():
+    return _c10_obl2() + [Ob('O10.7-division-kept', 'dead-code elimination never judges an integer division by a possibly-zero divisor removable (any integer type)', ob_division_kept, ('quick', 'thorough'), 2, dict(depth=1))]
